@@ -152,6 +152,9 @@ class FakeOutPath(Native):
     def get_parent(self, eng):
         return self
 
+    def resolve(self, eng, *a, **k):
+        return self
+
     def mkdir(self, eng, *a, **k):
         return None
 
@@ -200,6 +203,14 @@ class LinkText(Native):
 
 
 def _install_link_models(eng):
+    # this harness has no filesystem (output paths are stubs registered with the worker): whether a path is physically
+    # inside the destination is C03's obligation, here every stub path is
+    eng.overrides[("py7zr.py7zr", "Worker._is_inside")] = lambda e, *a, **k: True
+    eng.overrides[("py7zr.py7zr", "Worker._destination")] = lambda e, *a, **k: "<destination>"
+    _install_link_models_rest(eng)
+
+
+def _install_link_models_rest(eng):
     import pathlib
 
     from vf.pysym import models
